@@ -39,6 +39,11 @@ class Violation(Exception):
         self.part = None
 
 
+class StopSearch(BaseException):
+    """Ends a Hypothesis run at once without shrinking (used after recording a violation whose re-evaluation is very
+    expensive, e.g. a work-budget overrun). Not an Exception on purpose: Hypothesis lets it propagate."""
+
+
 def canon(obj):
     return json.dumps(obj, sort_keys=True, ensure_ascii=True, default=str)
 
@@ -213,6 +218,8 @@ def hyp_run(rec, prop, strategy, n, seed, shrink=True, stateful_steps=None):
     except Violation as v:
         rec.add_violation(v)
         return False
+    except StopSearch:
+        return False
     return True
 
 
@@ -228,6 +235,8 @@ def hyp_machine(rec, machine_cls, n, steps, seed, shrink=True):
             run_state_machine_as_test(hseed(seed)(machine_cls), settings=st)
     except Violation as v:
         rec.add_violation(v)
+        return False
+    except StopSearch:
         return False
     return True
 
